@@ -77,6 +77,8 @@ def gen_spec(rng):
             'interval': rng.choice([0, 1, 60]),
             # the format puts the independent variable first; a source file need not
             'ivar_pos': rng.choice([0, 0, 0, 1, 2, 9]),
+            # whole seconds are often stored as integers
+            'ivar_dtype': rng.choice(['d', 'd', 'i', 'f']),
             'std_attrs': rng.random() < 0.8}
 
 
@@ -85,10 +87,10 @@ def build_source(spec):
     f = pnc.PseudoNetCDFFile()
     f.createDimension('POINTS', spec['nrec'])
     def mk_ivar():
-        tv = f.createVariable(spec['ivar'], 'd', ('POINTS',))
+        tv = f.createVariable(spec['ivar'], spec.get('ivar_dtype', 'd'), ('POINTS',))
         tv.units = spec['iunits']
         tv.standard_name = spec['ivar']
-        tv[:] = np.array(spec['times'], dtype='d')
+        tv[:] = np.array(spec['times'], dtype=spec.get('ivar_dtype', 'd'))
 
     def mk_dep(v):
         miss = v['missing']
